@@ -321,9 +321,17 @@ theorem fromDocument_eq (kvs : List (String × Json)) (hok : ∀ kv ∈ kvs, Mem
     obtain ⟨k, v⟩ := kv
     have hk := hS (k, v) hkv
     by_cases h1 : k = "publicKey"
-    · subst h1; simp [specialPatch]
+    · subst h1
+      obtain ⟨xs, hv, hne, _⟩ := hk.keys rfl
+      simp only at hv; subst hv
+      have hem : isEmptyList (.arr xs) = false := by cases xs <;> simp_all [isEmptyList]
+      simp [specialPatch, hem]
     by_cases h2 : k = "service"
-    · subst h2; simp [specialPatch]
+    · subst h2
+      obtain ⟨xs, hv, hne, _⟩ := hk.services rfl
+      simp only at hv; subst hv
+      have hem : isEmptyList (.arr xs) = false := by cases xs <;> simp_all [isEmptyList]
+      simp [specialPatch, hem]
     by_cases h3 : k = "alsoKnownAs"
     · subst h3
       obtain ⟨us, hv, hne⟩ := hk.aka rfl
